@@ -214,6 +214,7 @@ fn main() {
             run_case(&mut run, t, false)
         }
     });
+    calgen::exhaustive_params(|t| run_case(&mut run, t, false));
     let exhaustive_cases = run.evaluations - corpus;
     let mut rng = Rng::new(args.seed ^ 0x19);
     let nrand = if args.thorough() { 30000 } else { 2000 };
@@ -228,7 +229,7 @@ fn main() {
         run_case(&mut run, &t, false);
     }
     run.finish(
-        "same generators as C17: corpus (the pinned quil-rs source-map test program::tests::expand_calibrations, calibration::tests::expand_with_detail_recursive, DECLARE in first/middle position of nested expansions); exhaustive small scope (one calibration x bodies of length 1..2 over the instruction pools, incl. DECLARE and nested calls); seeded random programs with 1..5 calibrations (nested up to depth 3, parameterised, DECLAREs) and 1..5 body instructions. Chains: seeded chains of nested calibrations A -> B -> C -> MEASURE of depth 2..4 with leaf instructions around the nested calls and an optional DECLARE at a random level. Distinct by program text; non-trivial = the source map has at least one Rewritten entry.",
+        "same generators as C17: corpus (the pinned quil-rs source-map test program::tests::expand_calibrations, calibration::tests::expand_with_detail_recursive, DECLARE in first/middle position of nested expansions); exhaustive small scope (one calibration x bodies of length 1..2 over the instruction pools, incl. DECLARE and nested calls); seeded random programs with 1..5 calibrations (nested up to depth 3, parameterised, DECLAREs) and 1..5 body instructions. Multi-parameter exhaustive scope: calibrations U and V of arity 2 and 3 with every literal/variable pattern (distinct variable names, literal i+1 at position i), bodies using every variable in a frame instruction, an unmatched gate and a nested call passing the parameters in reverse order, applied to pairwise distinct arguments in matching and rotated order; the random stream also uses 0..3 parameters with mixed patterns. Chains: seeded chains of nested calibrations A -> B -> C -> MEASURE of depth 2..4 with leaf instructions around the nested calls and an optional DECLARE at a random level. Distinct by program text; non-trivial = the source map has at least one Rewritten entry.",
         true,
         serde_json::json!({"corpus": corpus, "exhaustive_cases": exhaustive_cases, "random_cases": nrand, "chain_cases": nchain, "mutant": mutant()}),
     );
